@@ -166,6 +166,123 @@ def run(prog: Program, ctx: Ctx) -> None:  # noqa: PLR0912,PLR0915
         in_loop = any(any(isinstance(a, ast.For) for a in _anc(c)) for c in calls)
         ctx.ob("R2", f"applied|{lname}", in_loop, f"{lname} re-parents the expressions of every member it attaches", where(lf))
 
+    # R2 table: the decoder (evaluated through json's own object hook, innermost dictionaries first) re-attaches each name to the scope the
+    # visitor builds it in: bases / decorators / signatures of an object belong to the *enclosing* scope, attribute annotations and values to
+    # the scope the attribute is defined in.
+    import json
+
+    from sa.absint import Interp, Obj, Raised
+
+    it = Interp(prog, max_depth=40, max_steps=2_000_000)
+    jd = prog.function(f"{E}.json_decoder")
+
+    def name(n_: str) -> dict:
+        """An expression mentioning n_ three ways: bare inside a nested subscript, as the root of a dotted chain, and as a call argument."""
+        bare = {"cls": "ExprName", "name": n_}
+        nested = {"cls": "ExprSubscript", "left": {"cls": "ExprName", "name": "Dict"}, "slice": {"cls": "ExprTuple", "implicit": True, "elements": [
+            {"cls": "ExprName", "name": "K"}, {"cls": "ExprSubscript", "left": {"cls": "ExprName", "name": "List"}, "slice": bare}]}}
+        chain = {"cls": "ExprAttribute", "values": [{"cls": "ExprName", "name": n_}, {"cls": "ExprName", "name": "part"}, {"cls": "ExprName", "name": "leaf"}]}
+        call = {"cls": "ExprCall", "function": chain, "arguments": [dict(bare), {"cls": "ExprKeyword", "name": "k", "value": dict(bare)}]}
+        return {"cls": "ExprBinOp", "left": nested, "operator": "|", "right": {"cls": "ExprBinOp", "left": dict(chain) | {"values": [dict(v) for v in chain["values"]]}, "operator": "|", "right": call}}
+
+    def klass(n_: str, bases: list, decorators: list, members: list) -> dict:
+        return {"kind": "class", "name": n_, "lineno": 1, "endlineno": 2, "bases": bases, "labels": [], "members": members,
+                "decorators": [{"value": d, "lineno": 1, "endlineno": 1} for d in decorators]}
+
+    def func(n_: str, ann: dict | None, default: dict | None, returns: dict | None, decorators: list) -> dict:
+        return {"kind": "function", "name": n_, "lineno": 1, "endlineno": 2, "labels": [], "returns": returns,
+                "parameters": [{"name": "p", "kind": "positional or keyword", "annotation": ann, "default": default}],
+                "decorators": [{"value": d, "lineno": 1, "endlineno": 1} for d in decorators]}
+
+    def attr(n_: str, ann: dict | None, value: dict | None) -> dict:
+        return {"kind": "attribute", "name": n_, "lineno": 1, "endlineno": 1, "labels": [], "annotation": ann, "value": value}
+
+    doc = {"kind": "module", "name": "shop", "filepath": "shop.py", "labels": [], "members": [
+        klass("Meta", [], [], []),
+        func("register", name("T"), name("D"), name("R"), [name("deco")]),
+        attr("top", name("A"), name("V")),
+        klass("Model", [name("Meta")], [name("register")], [
+            klass("Meta", [name("Base")], [name("inner_deco")], []),
+            func("register", name("T"), name("D"), name("R"), [name("deco")]),
+            attr("x", name("Meta"), name("V")),
+        ]),
+    ]}
+    root = None
+    try:
+        root = json.loads(json.dumps(doc), object_hook=lambda d: it.call(jd, d))
+        ctx.ob("R2", "decode|minimal document", True, "the decoder loads a minimal document with every kind of object", where(jd))
+    except Raised as r:
+        ctx.ob("R2", "decode|minimal document", False, f"the decoder raises {r.exc} on a minimal document (module, classes, functions, attributes as the writer emits them)", where(jd))
+
+    def scope_of(e: object) -> str:
+        """Scopes of all free names of an expression (one string when they agree); attribute chains must stay linked part to part."""
+        scopes: set[str] = set()
+
+        def walk(x: object) -> None:
+            if isinstance(x, (list, tuple)):
+                for y in x:
+                    walk(y)
+                return
+            if not isinstance(x, Obj) or x.cls is None:
+                return
+            if x.cls.name == "ExprName":
+                par = x.attrs.get("parent")
+                scopes.add(it.getattr(par, "path") if isinstance(par, Obj) and par.cls is not None and par.cls.name != "ExprName" else f"<{par!r}>")
+                return
+            if x.cls.name == "ExprAttribute":
+                vals = x.attrs["values"]
+                walk(vals[0])
+                for prev, cur in zip(vals, vals[1:]):
+                    if isinstance(cur, Obj) and cur.attrs.get("parent") is not prev:
+                        scopes.add(f"<chain broken at .{cur.attrs.get('name')}>")
+                return
+            for k_, v_ in x.attrs.items():
+                if k_ not in ("parent", "function") or x.cls.name != "ExprKeyword":
+                    walk(v_)
+
+        walk(e)
+        return ",".join(sorted(scopes))
+
+    def collect(o: Obj, out: dict) -> None:
+        pth = it.getattr(o, "path")
+        kind = o.cls.name
+        if kind in ("Class", "Function"):
+            for i, d in enumerate(o.attrs.get("decorators") or []):
+                out[f"{pth}|decorator {i}"] = scope_of(d.attrs["value"])
+        if kind == "Class":
+            for i, b in enumerate(o.attrs.get("bases") or []):
+                out[f"{pth}|base {i}"] = scope_of(b)
+        if kind == "Function":
+            for q in it._iterate(o.attrs["parameters"]):
+                out[f"{pth}|parameter annotation"] = scope_of(q.attrs["annotation"])
+                out[f"{pth}|parameter default"] = scope_of(q.attrs["default"])
+            out[f"{pth}|returns"] = scope_of(o.attrs["returns"])
+        if kind == "Attribute":
+            out[f"{pth}|annotation"] = scope_of(o.attrs["annotation"])
+            out[f"{pth}|value"] = scope_of(o.attrs["value"])
+        for m in (o.attrs.get("members") or {}).values():
+            collect(m, out)
+
+    got: dict = {}
+    if root is not None:
+        collect(root, got)
+    want = {}
+    for pth, enclosing in (("shop.Meta", "shop"), ("shop.register", "shop"), ("shop.Model", "shop"), ("shop.Model.Meta", "shop.Model"), ("shop.Model.register", "shop.Model")):
+        pass
+    want = {
+        "shop.register|decorator 0": "shop", "shop.register|parameter annotation": "shop", "shop.register|parameter default": "shop", "shop.register|returns": "shop",
+        "shop.top|annotation": "shop", "shop.top|value": "shop",
+        "shop.Model|decorator 0": "shop", "shop.Model|base 0": "shop",
+        "shop.Model.Meta|decorator 0": "shop.Model", "shop.Model.Meta|base 0": "shop.Model",
+        "shop.Model.register|decorator 0": "shop.Model", "shop.Model.register|parameter annotation": "shop.Model", "shop.Model.register|parameter default": "shop.Model",
+        "shop.Model.register|returns": "shop.Model",
+        "shop.Model.x|annotation": "shop.Model", "shop.Model.x|value": "shop.Model",
+    }
+    for k_, w_ in want.items():
+        ctx.ob("R2", f"scope|{k_}", got.get(k_) == w_, f"after a reload the names in {k_.replace('|', ' / ')} resolve in scope `{got.get(k_)}`; the visitor builds them in `{w_}`", where(ap))
+    if root is not None:
+        ctx.expect_min("R2", len(got), 14)
+
     # ------------------------------------------------------------------ R3
     ctx.rule("R3", "enum-typed fields written as their value are rebuilt as enums by the reader")
     lp = prog.function(f"{E}._load_parameter")
